@@ -736,6 +736,8 @@ class Executor:
             if rv[1] == "Neg":
                 a = self.scalar_of(state, a)
                 return -a
+            if rv[1] == "PtrMetadata":
+                return self.length(state, a)
             return Opaque(("unop", rv[1]), dest_ty)
         if k == "len":
             v = self.read_place(state, frame, rv[1])
@@ -1518,6 +1520,18 @@ def m_str_eq(ex, state, frame, dest, args, ret_block, work, callee):
     sa = a.extra if isinstance(a, Agg) and a.kind == "str" else ex.summ(state, a)
     sb = b.extra if isinstance(b, Agg) and b.kind == "str" else ex.summ(state, b)
     return _ret(ex, state, frame, dest, ex.bvar("streq(%s,%s)" % (sa, sb)), ret_block)
+
+
+@model("str::strip_suffix", "str::strip_prefix")
+def m_strip(ex, state, frame, dest, args, ret_block, work, callee):
+    a, b = _val(ex, state, args[0]), _val(ex, state, args[1])
+    if isinstance(a, Agg) and a.kind == "str" and isinstance(b, Agg) and b.kind == "str":
+        suffix = normalize_callee(callee).endswith("strip_suffix")
+        if (a.extra.endswith(b.extra) if suffix else a.extra.startswith(b.extra)):
+            rest = a.extra[:len(a.extra) - len(b.extra)] if suffix else a.extra[len(b.extra):]
+            return _ret(ex, state, frame, dest, Agg("adt", "Option", "Some", [Agg("str", None, None, [], extra=rest)]), ret_block)
+        return _ret(ex, state, frame, dest, Agg("adt", "Option", "None", []), ret_block)
+    return _ret(ex, state, frame, dest, Opaque(("call", "str::strip", ()), "Option<&str>"), ret_block)
 
 
 @model("Option::and_then", "Option::map")
